@@ -327,7 +327,13 @@ def r17b(model, ctx):
     fn = model.func_expanded(f"{CDC}::AsyncFFSynchronizer.elaborate", depth=3)
     em = ElabModel(fn)
     t = unparse(fn)
-    ok = "m.domains += ClockDomain('async_ff', async_reset=True)" in t
+    # the private domain, however it is added (m.domains += ..., m.domains.async_ff = ...) and whatever else it is given (local=True)
+    doms = [c for c in ast.walk(fn) if isinstance(c, ast.Call) and dotted(c.func) == "ClockDomain" and
+            ((c.args and isinstance(c.args[0], ast.Constant) and c.args[0].value == "async_ff") or
+             any(k.arg == "name" and isinstance(k.value, ast.Constant) and k.value.value == "async_ff" for k in c.keywords))]
+    ok = len(doms) == 1 and any(k.arg == "async_reset" and isinstance(k.value, ast.Constant) and k.value.value is True
+                                for k in doms[0].keywords) and \
+        not any(k.arg in ("clk_edge", "reset_less") for k in doms[0].keywords) and "m.domains" in t
     ctx.check(ok, R, "AsyncFFSynchronizer:domain", "private domain async_ff with async_reset=True",
               "AsyncFFSynchronizer must use a private ClockDomain('async_ff', async_reset=True)", f"{CDC}:{fn.lineno}")
     fv = model.func_view(f"{CDC}::AsyncFFSynchronizer.elaborate", depth=3)
